@@ -1982,6 +1982,9 @@ func (w *Writer) tryConstEvalBinary(b ir.ExprBinary) (string, bool) {
 	if !w.involvesExprConstant(b.Left) && !w.involvesExprConstant(b.Right) {
 		return "", false
 	}
+	if !isFoldableArithmeticOp(b.Op) {
+		return "", false
+	}
 	leftVal, leftOk := w.exprConstValue(b.Left)
 	rightVal, rightOk := w.exprConstValue(b.Right)
 	if !leftOk || !rightOk {
@@ -1989,6 +1992,17 @@ func (w *Writer) tryConstEvalBinary(b ir.ExprBinary) (string, bool) {
 	}
 	result := ir.EvalBinaryFloat(b.Op, leftVal, rightVal)
 	return w.formatConstResult(b.Left, result), true
+}
+
+// isFoldableArithmeticOp reports whether ir.EvalBinaryFloat evaluates op.
+// For every other operator it returns 0, and a comparison would be formatted
+// with the operand type, so such expressions are written as ordinary code.
+func isFoldableArithmeticOp(op ir.BinaryOperator) bool {
+	switch op {
+	case ir.BinaryAdd, ir.BinarySubtract, ir.BinaryMultiply, ir.BinaryDivide:
+		return true
+	}
+	return false
 }
 
 // tryConstEvalUnary tries to const-evaluate a unary expression at write time.
@@ -2053,6 +2067,9 @@ func (w *Writer) exprConstValue(handle ir.ExpressionHandle) (float64, bool) {
 			}
 		}
 	case ir.ExprBinary:
+		if !isFoldableArithmeticOp(k.Op) {
+			return 0, false
+		}
 		left, leftOk := w.exprConstValue(k.Left)
 		right, rightOk := w.exprConstValue(k.Right)
 		if leftOk && rightOk {
